@@ -101,6 +101,9 @@ type scanCfg struct {
 	stopAfter    int
 	stopMode     int
 	cancelDelayQ int64
+	// twin, when set, is a second, independent scan (own reader, own scanner, own consumer goroutine "consumer2")
+	// whose lifetime overlaps this one's inside the same simulated process
+	twin *scanCfg
 }
 
 type scanRes struct {
@@ -115,6 +118,7 @@ type scanRes struct {
 	policy  string
 	offs    [][2]int64 // FullyScannedBytes / PreviousFullyScannedBytes after each successful Scan
 	endOffs [2]int64   // the same, read after the final Scan()==false
+	twin    *scanRes   // result of the overlapping second scan, if one was configured
 }
 
 var speedSets = [][]int64{
@@ -174,6 +178,32 @@ func runScan(t *testing.T, c scanCfg) (res scanRes) {
 		}
 		sc.SkipNodes, sc.SkipWays, sc.SkipRelations = c.skip[0], c.skip[1], c.skip[2]
 		sc.FilterNode, sc.FilterWay, sc.FilterRelation = c.fNode, c.fWay, c.fRel
+		var twinDone chan struct{}
+		if c.twin != nil {
+			tw := c.twin
+			res.twin = &scanRes{}
+			tr := res.twin
+			rd2 := newReader(c.tape, tw.data, c.sched.Seed+1)
+			tr.reader = rd2
+			sc2 := osmpbf.New(root, rd2, tw.procs)
+			twinDone = make(chan struct{})
+			simrt.GoNamed("consumer2", func() {
+				defer close(twinDone)
+				for len(tr.objs) < 100000 && sim.Aborted() == "" {
+					simrt.Yield("consumer2.Scan")
+					if !sc2.Scan() {
+						break
+					}
+					o := sc2.Object()
+					tr.objs = append(tr.objs, o)
+					tr.snaps = append(tr.snaps, snapshot(o))
+				}
+				tr.err = sc2.Err()
+				simrt.Yield("consumer2.Close")
+				sc2.Close()
+				tr.closeOK = true
+			})
+		}
 		if c.header {
 			simrt.Yield("consumer.Header")
 			res.hdr, res.hdrErr = sc.Header()
@@ -197,6 +227,9 @@ func runScan(t *testing.T, c scanCfg) (res scanRes) {
 		simrt.Yield("consumer.Close")
 		sc.Close()
 		res.closeOK = true
+		if twinDone != nil {
+			<-twinDone
+		}
 	})
 	return
 }
